@@ -104,6 +104,10 @@ def _rc8(r: typing.Any) -> typing.Any:
     return bv(r, 8)
 
 
+def _leaks(s2: core.State) -> typing.List[str]:
+    return [o.name for o in s2.objs.values() if o.name.startswith("heap") and not o.freed]
+
+
 class QueryLog:
     def __init__(self) -> None:
         self.unsat = 0
@@ -216,6 +220,8 @@ def ser_queries(tu: TypeUnit, bufsize: int, check_ub: bool, functional: bool = T
         for n in s2.notes:
             if str(n) not in log.notes:
                 log.notes.append(str(n))
+        if _leaks(s2):
+            log.cex.append(dict(fn="ser", kind="leak", what=f"heap blocks not freed at exit: {_leaks(s2)[:3]}", bufsize=bufsize, inputs=_inputs(_model(_pc(s2)), obj0, buf0)))
         if not functional:
             # C04/C05 obligations only: documented return codes, size never exceeds the supplied/advertised size
             size_out = eng.load(s2, core.IntT(64), psz)
@@ -287,6 +293,8 @@ def des_queries(tu: TypeUnit, L: int, check_ub: bool, functional: bool = True, u
                 log.notes.append(str(n))
         consumed = eng.load(s2, core.IntT(64), psz)
         fin = s2.objs[pdst.obj].data
+        if _leaks(s2):
+            log.cex.append(dict(fn="des", kind="leak", what=f"heap blocks not freed at exit: {_leaks(s2)[:3]}", L=L, inputs=_inputs(_model(_pc(s2)), [], buf0, dst0)))
         if not functional:
             goal = z3.And(z3.Or(*[_rc8(r) == (-c) & 0xFF for c in (0, D.ERR_ARRAY, D.ERR_TAG, D.ERR_DELIM)]), z3.ULE(bv(consumed, 64), L))
             m = _check(solver, _pc(s2), goal, log)
